@@ -441,6 +441,73 @@ impl<'a> FusedFuture for TimerFuture<'a> {
     }
 }
 
+#[cfg(futures_intrusive_verif)]
+fn verif_node_info(node: &HeapNode<TimerQueueEntry>) -> crate::verif::NodeInfo {
+    let (parent, prev, next, first_child) = node.verif_links();
+    let (has_waker, waker_data) = crate::verif::waker_data(&node.task);
+    crate::verif::NodeInfo {
+        prev,
+        next,
+        parent,
+        first_child,
+        state: match node.state {
+            PollState::Unregistered => 0,
+            PollState::Registered => 1,
+            PollState::Expired => 2,
+        },
+        has_waker,
+        waker_data,
+        arg: node.expiry,
+    }
+}
+
+#[cfg(futures_intrusive_verif)]
+impl<MutexType: RawMutex> GenericTimerService<MutexType> {
+    /// Reports the internal state while holding the internal lock
+    pub fn verif_inspect(
+        &self,
+        visit: &mut dyn FnMut(crate::verif::Visit) -> bool,
+    ) {
+        use crate::verif::{PrimInfo, Visit};
+        let state = self.inner.lock();
+        visit(Visit::Prim(PrimInfo {
+            head: state.waiters.verif_root(),
+            count: state.clock.now(),
+            ..Default::default()
+        }));
+        crate::verif::walk_heap(&state.waiters, 0, visit, &verif_node_info);
+        visit(Visit::Done);
+    }
+}
+
+#[cfg(futures_intrusive_verif)]
+impl<'a> LocalTimerFuture<'a> {
+    /// Address of the embedded wait node
+    pub fn verif_node_addr(&self) -> usize {
+        &self.wait_node as *const _ as usize
+    }
+
+    /// Content of the embedded wait node. Must only be called while no other
+    /// thread can access the node (e.g. from within `verif_inspect`)
+    pub unsafe fn verif_node_info(&self) -> crate::verif::NodeInfo {
+        verif_node_info(&self.wait_node)
+    }
+}
+
+#[cfg(futures_intrusive_verif)]
+impl<'a> TimerFuture<'a> {
+    /// Address of the embedded wait node
+    pub fn verif_node_addr(&self) -> usize {
+        self.timer_future.verif_node_addr()
+    }
+
+    /// Content of the embedded wait node. Must only be called while no other
+    /// thread can access the node (e.g. from within `verif_inspect`)
+    pub unsafe fn verif_node_info(&self) -> crate::verif::NodeInfo {
+        self.timer_future.verif_node_info()
+    }
+}
+
 // Export a non thread-safe version using NoopLock
 
 /// A [`GenericTimerService`] implementation which is not thread-safe.
